@@ -233,6 +233,12 @@ def install(eng):
         call.m.event("oncecell_new_with_value")
         return a
 
+    @on(r"(^|::)mem::forget$|^forget$|ManuallyDrop::new$")
+    def _forget(call):
+        v = call.argv[0]
+        call.m.event("forget", getattr(getattr(v, "lazy", None), "name", None) or type(v).__name__)
+        return UNIT if not call.norm.endswith("new") else v
+
     # ---------------------------------------------------------------- locks (trusted: an atomic block)
     @on(r"Mutex::lock$")
     def _mutex_lock(call):
